@@ -425,26 +425,6 @@ func (w *world) checkInvariants(step string) {
 
 const sigReorgLock = "reorg-keeps-tx-whose-relative-lock-lost-its-confirmed-coin"
 
-// relLockLostItsCoin: the transaction has an enabled BIP68 lock on an input whose
-// coin was confirmed before the reorganisation and is now unconfirmed or
-// confirmed at another height.
-func relLockLostItsCoin(tx *wire.MsgTx, before, after ce.UtxoSet) bool {
-	if uint32(tx.Version) < 2 {
-		return false
-	}
-	for _, ti := range tx.TxIn {
-		if ti.Sequence&(1<<31) != 0 {
-			continue
-		}
-		old, okOld := before[ti.PreviousOutPoint]
-		now, okNow := after[ti.PreviousOutPoint]
-		if okOld && (!okNow || now.Height != old.Height) {
-			return true
-		}
-	}
-	return false
-}
-
 func genPolicy(t *rapid.T) mempool.Policy {
 	return mempool.Policy{
 		MaxTxVersion:         rapid.SampledFrom([]int32{2, 2, 1, 3}).Draw(t, "maxTxVersion"),
@@ -795,7 +775,7 @@ func (w *world) step(s int) {
 		// removes such transactions itself (counted) so that the search continues behind it.
 		if ev.IsKnown("C10", sigReorgLock) {
 			for _, d := range e.PoolTxs() {
-				if relLockLostItsCoin(d.Tx.MsgTx(), tip.Utxo, e.Tip().Utxo) {
+				if pe.RelLockLostItsCoin(d.Tx.MsgTx(), tip.Utxo, e.Tip().Utxo) {
 					e.Pool.RemoveTransaction(d.Tx, true)
 					recPool.Excluded()
 					recPool.Count("excluded:reorg-relative-lock", 1)
